@@ -30,6 +30,9 @@ pub use metrique_writer_core::sample::SampledFormat;
 
 mod congress;
 pub use congress::{CongressSample, CongressSampleBuilder};
+#[cfg(metrique_verif)]
+#[doc(hidden)]
+pub use congress::__verif_clock as __verif_congress_clock;
 
 /// Utility wrapper to impl [`RngCore`] from a stateless random number generator that impls [`Default`], like
 /// [`ThreadRng`].
